@@ -654,7 +654,7 @@ fn f2(tier: Tier) -> Vec<Query> {
         );
     }
     // USING
-    for k in menu(tier, &kinds, 2) {
+    for k in kinds {
         out.push(
             Select::new(
                 vec![item(col("a")), item(tb()), item(uc())],
@@ -775,7 +775,15 @@ fn f3(tier: Tier) -> Vec<Query> {
         GroupBy::Sets(vec![vec![a()], vec![a()]]),
     ];
     for g in menu(tier, &gsets, 3) {
-        out.push(Select::new(vec![item(a()), item(bb()), item_as(count_star(), "n"), item_as(agg(AggFn::Sum, bb()), "s")], table("t")).group_by(g).query());
+        // only grouping keys may be projected
+        let only_a = matches!(&g, GroupBy::Rollup(k) if k.len() == 1) || matches!(&g, GroupBy::Sets(k) if k.iter().all(|x| x.len() == 1 && x[0] == a()));
+        let mut items = vec![item(a())];
+        if !only_a {
+            items.push(item(bb()));
+        }
+        items.push(item_as(count_star(), "n"));
+        items.push(item_as(agg(AggFn::Sum, bb()), "s"));
+        out.push(Select::new(items, table("t")).group_by(g).query());
     }
     // text / bool / float aggregates
     out.push(Select::new(vec![item(a()), item_as(agg(AggFn::Min, c()), "mn"), item_as(agg(AggFn::Max, c()), "mx"), item_as(agg_distinct(AggFn::Count, c()), "d")], table("u")).group(vec![a()]).query());
@@ -825,7 +833,7 @@ fn f3(tier: Tier) -> Vec<Query> {
                 out.push(Select::new(vec![item(bb()), item_as(g.clone(), "g")], table("t")).filter(p.clone()).group(vec![bb()]).query());
             }
         }
-        for g in &gsets {
+        for g in gsets.iter().filter(|g| !matches!(g, GroupBy::Rollup(k) if k.len() == 1) && !matches!(g, GroupBy::Sets(k) if k.iter().all(|x| x.len() == 1 && x[0] == a()))) {
             for ag in ags.iter().take(6) {
                 out.push(Select::new(vec![item(a()), item(bb()), item_as(ag.clone(), "g")], table("t")).group_by(g.clone()).query());
             }
